@@ -324,11 +324,16 @@ def _run_hypothesis(state: ShardState, sub: Sub, tier: str, hseed: int, n: int) 
             test()
         except Violation:
             return  # state.failing holds the last (= minimal) failing case
-        except hypothesis.errors.FlakyFailure as exc:  # type: ignore[attr-defined]
-            state.harness_error = 'Flaky: ' + ''.join(traceback.format_exception(type(exc), exc, exc.__traceback__))[-3000:]
-            return
-        except hypothesis.errors.Flaky as exc:
-            state.harness_error = 'Flaky: ' + ''.join(traceback.format_exception(type(exc), exc, exc.__traceback__))[-3000:]
+        except hypothesis.errors.Flaky as exc:      # includes FlakyFailure
+            if state.failing is not None:
+                # The oracle is a pure function of (descriptor, code); a case that violated a clause once and passes when
+                # re-run means the code under test keeps hidden state between calls (caches, class-level lists ...).
+                # The observed violation stands; the replay file may pass in a fresh process.
+                state.failing['message'] = (state.failing['message'] +
+                                            '\n[not reproducible on immediate re-run in the same process: the failure depends on state '
+                                            'srctools kept from earlier cases]')[:4000]
+            else:
+                state.harness_error = 'Flaky: ' + ''.join(traceback.format_exception(type(exc), exc, exc.__traceback__))[-3000:]
             return
         done += this
         part += 1
